@@ -19,7 +19,10 @@ package server
 import (
 	"context"
 	"net/http"
+	"path"
+	"strconv"
 	"sync/atomic"
+	"time"
 
 	"github.com/tikv/pd/server/cluster"
 	"github.com/tikv/pd/server/config"
@@ -116,4 +119,61 @@ func (s *Server) VerifClose() {
 		s.hbStreams.Close()
 	}
 	_ = s.storage.Close()
+}
+
+// VerifNewTSOServer composes only the members of a Server that the TSO service
+// and the PD-to-PD TSO handlers (SyncMaxTS, GetDCLocationInfo) use: cluster id,
+// member, TSO allocator manager with the global allocator and the dc-location
+// registration - the corresponding lines of startServer, without storage, raft
+// cluster and heartbeat streams (no LevelDB, no background goroutines).
+func VerifNewTSOServer(ctx context.Context, cfg *config.Config, client *clientv3.Client, memberID uint64) (*Server, error) {
+	s := &Server{
+		cfg:            cfg,
+		persistOptions: config.NewPersistOptions(cfg),
+		member:         member.NewMember(nil, client, memberID),
+		ctx:            ctx,
+		client:         client,
+	}
+	s.serverLoopCtx, s.serverLoopCancel = context.WithCancel(ctx)
+	if err := s.initClusterID(); err != nil {
+		return nil, err
+	}
+	s.rootPath = path.Join(pdRootPath, strconv.FormatUint(s.clusterID, 10))
+	s.member.MemberInfo(s.cfg, s.Name(), s.rootPath)
+	s.tsoAllocatorManager = tso.NewAllocatorManager(
+		s.member, s.rootPath, s.cfg,
+		func() time.Duration { return s.persistOptions.GetMaxResetTSGap() })
+	s.tsoAllocatorManager.SetUpAllocator(ctx, tso.GlobalDCLocation, s.member.GetLeadership())
+	if zone, exist := s.cfg.Labels[config.ZoneLabel]; exist && zone != "" && s.cfg.EnableLocalTSO {
+		if err := s.tsoAllocatorManager.SetLocalTSOConfig(zone); err != nil {
+			return nil, err
+		}
+	}
+	atomic.StoreInt64(&s.isServing, 1)
+	return s, nil
+}
+
+// VerifBecomeTSOLeader is VerifBecomeLeader for a server made by VerifNewTSOServer:
+// campaign, initialize the global allocator, enable the leader.
+func (s *Server) VerifBecomeTSOLeader() error {
+	if err := s.member.CampaignLeader(s.cfg.LeaderLease); err != nil {
+		return err
+	}
+	allocator, err := s.tsoAllocatorManager.GetAllocator(tso.GlobalDCLocation)
+	if err != nil {
+		s.member.ResetLeader()
+		return err
+	}
+	if err := allocator.Initialize(0); err != nil {
+		s.member.ResetLeader()
+		return err
+	}
+	s.member.EnableLeader()
+	return nil
+}
+
+// VerifCloseTSO releases a server made by VerifNewTSOServer.
+func (s *Server) VerifCloseTSO() {
+	atomic.StoreInt64(&s.isServing, 0)
+	s.serverLoopCancel()
 }
